@@ -3,6 +3,8 @@ package c18
 
 import (
 	"bytes"
+	"crypto/ecdsa"
+	"crypto/elliptic"
 	"crypto/rand"
 	"crypto/rsa"
 	stdx509 "crypto/x509"
@@ -80,6 +82,8 @@ func targets() []target {
 	signedDER, _ := sd.Finish()
 	p8plain, _ := gx509.MarshalSm2PrivateKey(k0, nil)
 	p8enc, _ := gx509.MarshalSm2PrivateKey(k0, []byte("pw"))
+	ek, _ := ecdsa.GenerateKey(elliptic.P256(), rand.Reader)
+	p8p256, _ := stdx509.MarshalPKCS8PrivateKey(ek)
 	pubDER, _ := gx509.MarshalSm2PublicKey(&k0.PublicKey)
 	pemPriv, _ := gx509.WritePrivateKeyToPem(k0, nil)
 	pemPrivEnc, _ := gx509.WritePrivateKeyToPem(k0, []byte("pw"))
@@ -150,6 +154,7 @@ func targets() []target {
 			gx509.ParsePKCS8UnecryptedPrivateKey(in)
 		}},
 		{name: "x509.ParsePKCS8PrivateKey(encrypted)", corpus: [][]byte{p8enc}, der: true, pwKDF: true, frozen: find(p8enc, iter2048), call: func(in []byte) { gx509.ParsePKCS8PrivateKey(in, []byte("pw")) }},
+		{name: "pkcs12.ParsePKCS8PrivateKey", corpus: [][]byte{p8plain, p8p256}, der: true, call: func(in []byte) { pkcs12.ParsePKCS8PrivateKey(in) }},
 		{name: "x509.ParseSm2PrivateKey", corpus: [][]byte{p8plain[26:]}, der: true, call: func(in []byte) { gx509.ParseSm2PrivateKey(in) }},
 		{name: "x509.ParseSm2PublicKey+ParsePKIXPublicKey", corpus: [][]byte{pubDER}, der: true, call: func(in []byte) {
 			if p, err := gx509.ParseSm2PublicKey(in); err == nil && p != nil && p.X != nil {
@@ -302,7 +307,61 @@ func faults(t *target, valid []byte, ci int, quick bool, emit func(kind string, 
 				emit("tag-swap", m)
 			}
 		}
+		// well-formed re-encodings: one element changes size and every enclosing length is
+		// adjusted, so the outer structure still parses and the odd element reaches the code
+		// that interprets it (an integer or key of another width, a list with one element
+		// more or fewer)
+		for i, e := range ts {
+			touches := false
+			for o := range frozen {
+				if o >= e.tagOff && o < e.valOff+e.valLen {
+					touches = true
+				}
+			}
+			if touches || e.valLen > 4096 {
+				continue
+			}
+			val := valid[e.valOff : e.valOff+e.valLen]
+			whole := valid[e.tagOff : e.valOff+e.valLen]
+			hdr := func(v []byte) []byte { return append(append([]byte{valid[e.tagOff]}, encLen(len(v))...), v...) }
+			var repl [][]byte
+			if valid[e.tagOff]&0x20 == 0 && e.valLen <= 80 {
+				repl = append(repl, hdr(append([]byte{0}, val...)), hdr(append([]byte{0, 0}, val...)), hdr(append([]byte{0xff}, val...)), hdr(append(append([]byte{}, val...), 0)))
+				if e.valLen > 0 {
+					repl = append(repl, hdr(val[1:]), hdr(val[:len(val)-1]), hdr(nil))
+				}
+				if e.valLen > 1 && !quick {
+					repl = append(repl, hdr(val[:1]), hdr(append(make([]byte, 0, 70), bytes.Repeat([]byte{0}, 64-len(val)%64)...)))
+				}
+			}
+			repl = append(repl, nil, append(append([]byte{}, whole...), whole...)) // element removed, element doubled
+			for _, r := range repl {
+				emit("consistent-re-encoding", resize(valid, ts, i, r))
+			}
+		}
 	}
+}
+
+// resize replaces element i (tag, length and value) by repl and re-encodes the length of every
+// element that contains it.
+func resize(valid []byte, ts []tlv, i int, repl []byte) []byte {
+	e := ts[i]
+	out := append(append(append([]byte{}, valid[:e.tagOff]...), repl...), valid[e.valOff+e.valLen:]...)
+	delta := len(repl) - (e.valOff + e.valLen - e.tagOff)
+	// ancestors, innermost first: elements listed before i that contain it
+	for j := i - 1; j >= 0; j-- {
+		a := ts[j]
+		if !(a.valOff <= e.tagOff && e.valOff+e.valLen <= a.valOff+a.valLen) {
+			continue
+		}
+		nl := encLen(a.valLen + delta)
+		if a.valLen+delta < 0 {
+			return out
+		}
+		out = append(append(append([]byte{}, out[:a.lenOff]...), nl...), out[a.lenOff+a.lenLen:]...)
+		delta += len(nl) - a.lenLen
+	}
+	return out
 }
 
 // guardCall runs one decoder call with panic capture, an allocation budget and a watchdog.
